@@ -26,6 +26,15 @@ Four monitor groups, all on the real classes through their public API only:
              directly from the final parameters (all keywords, or default-valued keywords omitted / no arguments) and one
              constructed from different values and brought there through every setter; direct vs setter path has its
              own key.  Histories contain no-op assignments (the value the attribute already has) and A -> B -> A.
+  shape    : at every judged cross-section the transverse profile is f(axis) exp(-x^2/2sx^2 - y^2/2sy^2) with the widths measured
+             at about one sigma, out to 6 sigma along axes and diagonals (no Rayleigh-range convention needed); Gaussian-beam cases
+             place the section 0..50 Rayleigh ranges on either side of waists of 2e-5..1e-2 m.  A cross-section the tensor grid
+             cannot certify (truncated / non-smooth profile) is integrated by a polar quadrature with its own error estimate and
+             judged when the deviation is far outside it (keys get ':far-from-waist' when the local width exceeds 1.5 waists).
+  placement: after attaching and after EVERY setter of an attached profile, after `laser.laser_profile = laser.laser_profile`
+             and after replacing the profile (equal / different segment count; 'laser' cases favour length changes that keep the
+             count) the Laser's segments, read from each segment's transform, must tile [0, laser_length] of the current profile
+             and equal those of a freshly built Laser (keys tiling:segment-placement-after:<op>).
   formula  : on every profile object judged by quad / history (all three construction paths) get_energy_density at fixed
              multiples of the documented sigmas against the normalised Gaussian that the documented standard deviations
              and the stated integral define (sigma_z = c*tau for any tau, 1 ns or 1 s; Gaussian beam in the waist plane only).
